@@ -69,6 +69,12 @@ def recreate_name(ctx) -> str:
             if isinstance(c, ast.Call) and isinstance(c.func, ast.Attribute) and norm(c.func.value) == "self" and not c.args \
                     and outer.cls is not None and c.func.attr in outer.cls.methods:
                 name = c.func.attr
+    if name is None and outer.cls is not None:
+        # the wrapper does not call it (that is what R15.1 will report): the hook is the one other
+        # zero-argument method the decorator base class defines
+        others = [m for k, m in outer.cls.methods.items() if k != "__call__" and len(m.param_names()) == 1]
+        if len(others) == 1:
+            name = others[0].node.name
     if name is None:
         name = "_recreate_cm"
     ctx.__dict__["_recreate_name"] = name
